@@ -111,7 +111,8 @@ def replay_binary(profile="dev", packed=False):
             cmd.append("--release")
         if packed:
             cmd += ["--features", "packed"]
-        p = subprocess.run(cmd, cwd=os.path.join(VERIF, "replay"), env=ENV,
+        env = dict(ENV, RUSTFLAGS="--cfg fpdec_verif")      # hooks on (MANIFEST.hooks.guard)
+        p = subprocess.run(cmd, cwd=os.path.join(VERIF, "replay"), env=env,
                            stdout=subprocess.PIPE, stderr=subprocess.PIPE)
         if p.returncode != 0:
             sys.stderr.write(p.stderr.decode(errors="replace")[-3000:])
